@@ -945,3 +945,6 @@ def all_table_rules(chk, fx):
     goto_spec(chk, fx)
     addsit_spec(chk, fx)
     root_spec(chk, fx)
+    from . import golden, goldenreg
+    golden.group(chk, fx, "SORTSL", "reference summaries: stable sort of rule_infos and the per-nonterminal rule slices",
+                 goldenreg.GROUPS["SORTSL"])
